@@ -12,6 +12,13 @@ fits       real fits of small ``verif-table`` models in which *every* parameter 
            expression, and the ordering of Jacobian columns / covariance / standard errors against a
            finite-difference derivative of the captured objective taken *by label*.
 
+edits      histories on ONE ``Parameters`` object: exports of the optimiser's vector (``exclude_non_vary`` True / False) and
+           imports of a moved vector, interleaved with in-place edits of single parameters (``vary`` toggled; redeclared
+           as a plain parameter of any kind; given an expression) and ``copy()``.  The oracle replays the edits on the
+           JSON declaration: after every edit the *current* declaration decides what is free / fixed / an expression.
+           Clauses are ``<sub>.initial.*`` before and ``<sub>.after_edit.*`` after the first edit that follows an observation.
+refits     the same histories with ``optimize()`` runs over the same object between the edits (handoff model).
+
 The oracle never reads glotaran's own classification: free / fixed / expression, the declaration order and the
 expression values come from the generated case (``vlib.gen.params``, ``vlib.oracle.c12expr``).
 """
@@ -269,12 +276,6 @@ def captured_objective(case, data, values: dict):
 
 def prop_fit(case):
     """One optimize() run through the capture stub."""
-    from unittest import mock
-
-    import scipy.optimize
-
-    from glotaran.optimization.optimize import optimize
-
     pset = case["set"]
     order, byl, free = oracle_view(pset)
     exprs = gp.exprs_of(pset)
@@ -289,6 +290,40 @@ def prop_fit(case):
     data = _data(case)
     with expect_ok(f"{sub}.construct"):
         P = gp.build(pset)
+    tags = set()
+    opt = fit_and_check(case, pset, P, data, sub, tags)
+    # ---- classification
+    kinds, nontrivial = kinds_tags(pset)
+    active = False
+    for lab in free:
+        p, v = byl[lab], float(opt.get(lab).value)
+        for b in (p.get("min", -INF), p.get("max", INF)):
+            if math.isfinite(b) and abs(v - b) <= 1e-6 * max(abs(b), 1e-12):
+                active = True
+    if active:
+        tags.add("bound_active_at_solution")
+    tags |= {f"kind:{k}" for k in kinds} | {f"method:{METHODS[case['method']]}", f"construct:{pset['construct']}"}
+    if case.get("truth_vs_box"):
+        tags |= {f"truth:{t}" for t in case["truth_vs_box"]}
+    if free != sorted(free):
+        tags.add("free_order_not_sorted")
+    if [lab for lab in order if lab in free] != [lab for lab in case["rates"] if lab in free]:
+        tags.add("declaration_order_differs_from_column_order")
+    return {"nontrivial": bool(nontrivial or active), "tags": sorted(tags)}
+
+
+def fit_and_check(case, pset, P, data, sub, tags):
+    """One optimize() of the model of ``case`` over the glotaran object ``P`` (through the capture stub), decided
+    against the parameter set ``pset`` (the oracle's account of what ``P`` holds).  Returns the optimised set."""
+    from unittest import mock
+
+    import scipy.optimize
+
+    from glotaran.optimization.optimize import optimize
+
+    case = dict(case, set=pset)
+    order, byl, free = oracle_view(pset)
+    exprs = gp.exprs_of(pset)
     real = scipy.optimize.least_squares
     calls = []
 
@@ -300,7 +335,6 @@ def prop_fit(case):
     with mock.patch("glotaran.optimization.optimizer.least_squares", stub), np.errstate(all="ignore"):
         with expect_ok(f"{sub}.optimize"):
             res = optimize(scheme, verbose=False, raise_exception=True)
-    tags = set()
     # ---- what was handed to the optimiser
     check(len(calls) == 1, f"{sub}.stub_called", lambda: f"least_squares called {len(calls)} times")
     x0, kw = calls[0]["x0"], calls[0]["kw"]
@@ -393,24 +427,194 @@ def prop_fit(case):
                 tags.add("covariance_checked")
         else:
             tags.add("jacobian_column_too_small")
-    # ---- classification
-    kinds, nontrivial = kinds_tags(pset)
-    active = False
-    for lab in free:
-        p, v = byl[lab], float(opt.get(lab).value)
-        for b in (p.get("min", -INF), p.get("max", INF)):
-            if math.isfinite(b) and abs(v - b) <= 1e-6 * max(abs(b), 1e-12):
-                active = True
-    if active:
-        tags.add("bound_active_at_solution")
-    tags |= {f"kind:{k}" for k in kinds} | {f"method:{METHODS[case['method']]}", f"construct:{pset['construct']}"}
-    if case.get("truth_vs_box"):
-        tags |= {f"truth:{t}" for t in case["truth_vs_box"]}
-    if free != sorted(free):
-        tags.add("free_order_not_sorted")
-    if [lab for lab in order if lab in free] != [lab for lab in case["rates"] if lab in free]:
-        tags.add("declaration_order_differs_from_column_order")
-    return {"nontrivial": bool(nontrivial or active), "tags": sorted(tags)}
+    return opt
+
+
+# ------------------------------------------------------------------------------------------
+# histories on ONE Parameters object: observe / edit in place / observe again
+
+
+def _expr_domain_ok(pset) -> bool:
+    plain = {p["label"]: p["value"] for p in pset["params"] if p.get("expr") is None}
+    try:
+        ex.evaluate_all(gp.exprs_of(pset), plain)
+    except ex.OutOfDomain:
+        return False
+    return True
+
+
+def model_after_edit(pset, step):
+    """The oracle's account of an in-place edit: the declaration of one parameter is replaced, everything else
+    (including the declaration order) stays."""
+    new = copy.deepcopy(pset)
+    for i, p in enumerate(new["params"]):
+        if p["label"] != step["label"]:
+            continue
+        if step["op"] == "vary":
+            p["vary"] = bool(step["vary"])
+        elif step["decl"].get("expr") is not None:
+            p["expr"] = copy.deepcopy(step["decl"]["expr"])  # value: whatever the expression gives
+        else:
+            new["params"][i] = dict(copy.deepcopy(step["decl"]), label=p["label"])
+    return new
+
+
+def apply_edit(P, step):
+    """The same edit through the public attributes of the glotaran ``Parameter`` (the object stays in its container)."""
+    par = P.get(step["label"])
+    if step["op"] == "vary":
+        par.vary = bool(step["vary"])
+        return
+    d = step["decl"]
+    if d.get("expr") is not None:
+        par.expression = ex.render(d["expr"])
+        return
+    par.expression = None
+    par.value = float(d["value"])
+    par.minimum = d["min"]
+    par.maximum = d["max"]
+    par.non_negative = bool(d["nn"])
+    par.vary = bool(d["vary"])
+
+
+def _optimiser_space(p):
+    """(x, lb, ub) of a free parameter as the statement prescribes (logarithms for a non-negative one)."""
+    v, mn, mx = float(p["value"]), float(p.get("min", -INF)), float(p.get("max", INF))
+    if not p.get("nn"):
+        return v, mn, mx
+    return math.log(v), (math.log(mn) if mn > 0 else -INF), (math.log(mx) if mx < INF else INF)
+
+
+def move_inside(x, lb, ub, delta):
+    """x moved by about ``delta`` but strictly inside (lb, ub): at most half the way to the bound in the direction of
+    ``delta``; the other direction when x sits on that bound."""
+    for d in (delta, -delta):
+        room = (ub - x) if d > 0 else (x - lb)
+        if room > 0:
+            return x + math.copysign(min(abs(d), 0.5 * room), d)
+    return x
+
+
+def model_after_set(pset, step, slow_labels=()):
+    """Vector (labels, x) for ``set_from_label_and_value_arrays`` and the parameter set it must produce."""
+    new = copy.deepcopy(pset)
+    labels, xs = [], []
+    for i, p in enumerate(q for q in new["params"] if gp.is_free(q)):
+        x, lb, ub = _optimiser_space(p)
+        f = 0.03 if p["label"] in slow_labels else 0.37
+        x2 = move_inside(x, lb, ub, step["dir"] * (1 if i % 2 == 0 else -1) * f * (1 + abs(x)))
+        labels.append(p["label"])
+        xs.append(x2)
+        p["value"] = float(np.exp(x2)) if p.get("nn") else float(x2)
+    order = gp.declaration_order(new)
+    pos = {lab: k for k, lab in enumerate(order)}
+    perm = sorted(range(len(labels)), key=lambda k: pos[labels[k]])
+    return [labels[k] for k in perm], [xs[k] for k in perm], new
+
+
+def check_get(prefix, P, pset, exclude):
+    order, byl, free = oracle_view(pset)
+    exprs = gp.exprs_of(pset)
+    with expect_ok(f"{prefix}.get"), np.errstate(all="ignore"):
+        labels, x, lb, ub = P.get_label_value_and_bounds_arrays(exclude_non_vary=exclude)
+    labels = list(labels)
+    if not exclude:
+        check(labels == order, f"{prefix}.all_labels", lambda: f"exclude_non_vary=False: labels {labels} != all parameters in declaration order {order}")
+        check(len(x) == len(lb) == len(ub) == len(order), f"{prefix}.lengths", lambda: f"{len(x)},{len(lb)},{len(ub)} vs {len(order)}")
+    else:
+        check(labels == free, f"{prefix}.free_labels",
+              lambda: f"vector labels {labels} != free parameters in declaration order {free} (fixed: {[l for l in order if l not in free and l not in exprs]}, expression: {list(exprs)})")
+        check(len(x) == len(lb) == len(ub) == len(free), f"{prefix}.lengths", lambda: f"{len(x)},{len(lb)},{len(ub)} vs {len(free)}")
+        for lab, xi, li, ui in zip(labels, x, lb, ub):
+            check_vector_entry(prefix, lab, byl[lab], float(xi), float(li), float(ui))
+            check_bracket(prefix, lab, float(xi), float(li), float(ui))
+    # the export evaluates the expressions: the object now holds exactly the declared set
+    check_values_against_case(f"{prefix}.held", "values held after the export", lambda lab: P.get(lab).value, pset, exprs)
+    for lab, tree in exprs.items():
+        check(P.get(lab).expression == ex.render(tree), f"{prefix}.definition_kept", lambda: f"{lab}: {P.get(lab).expression!r}")
+
+
+def prop_history(case):
+    """A history of steps on ONE ``Parameters`` object (``copy`` continues on the copy): exports of the optimiser's
+    vector, imports of a moved vector, fits, and in-place edits of single parameters between them.  After every edit the
+    *current* declaration decides what is free / fixed / defined by an expression."""
+    sub = case["sub"]
+    pset = copy.deepcopy(case["set"])
+    if not _expr_domain_ok(pset):
+        raise Discard("expression out of domain")
+    rates = case.get("rates", [])
+    data = _data(case) if rates else None
+    with expect_ok(f"{sub}.construct"):
+        P = gp.build(pset)
+    tags = set()
+    observed = False  # glotaran code has looked at the object (or an ancestor of the copy)
+    edited = False  # ... and a declaration was edited afterwards
+    free_seen = None  # free labels at the last observation
+    membership_changes = 0
+    for step in case["steps"]:
+        op = step["op"]
+        prefix = f"{sub}.after_edit" if edited else f"{sub}.initial"
+        if op in ("edit", "vary"):
+            new = model_after_edit(pset, step)
+            if not _expr_domain_ok(new):
+                tags.add("skipped:edit_leaves_expression_domain")
+                continue
+            with expect_ok(f"{sub}.edit"):
+                apply_edit(P, step)
+            pset = new
+            edited = edited or observed
+            tags.add("edit:" + ("vary" if op == "vary" else "expression" if step["decl"].get("expr") is not None else "redeclare"))
+            continue
+        if op == "copy":
+            with expect_ok(f"{sub}.copy"):
+                P = P.copy()
+            tags.add("copy")
+            continue
+        order, byl, free = oracle_view(pset)
+        if op == "get":
+            check_get(prefix, P, pset, bool(step["exclude"]))
+        elif op == "set":
+            if not free:
+                tags.add("skipped:nothing_free")
+                continue
+            labels, xs, new = model_after_set(pset, step, rates)
+            if not _expr_domain_ok(new):
+                tags.add("skipped:set_leaves_expression_domain")
+                continue
+            with expect_ok(f"{prefix}.set"):
+                P.set_from_label_and_value_arrays(labels, np.array(xs, dtype=float))
+            pset = new
+            nbyl = gp.by_label(pset)
+            for lab in labels:
+                got = float(P.get(lab).value)
+                check(ex.close(got, nbyl[lab]["value"], RTOL), f"{prefix}.set_identity", lambda: f"{lab}: vector entry gives {nbyl[lab]['value']!r}, held {got!r}")
+            check_values_against_case(f"{prefix}.after_set", "after setting a moved vector", lambda lab: P.get(lab).value, pset, gp.exprs_of(pset))
+        elif op == "fit":
+            if not free or not rates:
+                tags.add("skipped:nothing_free")
+                continue
+            nfev = case["nfev"] * (len(free) + 1) if case["method"] == "Levenberg-Marquardt" else case["nfev"]
+            fit_and_check(dict(case, max_nfev=nfev, check_jacobian=False), pset, P, data, prefix, tags)
+            # the fit works on a copy: the object handed in still is the declared (initial) set
+            for q in pset["params"]:
+                if q.get("expr") is None:
+                    held = float(P.get(q["label"]).value)
+                    check(same_float(held, q["value"]), f"{sub}.fit_input_changed", lambda: f"{q['label']}: {q['value']!r} before, {held!r} after optimize()")
+            check_values_against_case(f"{sub}.fit_input", "the Parameters object handed to optimize(), after the fit", lambda lab: P.get(lab).value, pset, gp.exprs_of(pset))
+        else:
+            raise ValueError(op)
+        tags.add(f"{op}:{'after_edit' if edited else 'initial'}")
+        if free_seen is not None and free_seen != free:
+            membership_changes += 1
+        free_seen = free
+        observed = True
+    if membership_changes:
+        tags.add("free_set_changed_between_observations")
+    kinds, _ = kinds_tags(pset)
+    tags |= {f"kind:{k}" for k in kinds} | {f"construct:{pset['construct']}"}
+    if rates:
+        tags.add(f"method:{METHODS[case['method']]}")
+    return {"nontrivial": membership_changes > 0, "tags": sorted(tags)}
 
 
 # ------------------------------------------------------------------------------------------
@@ -425,6 +629,21 @@ def _strip_bounds(p):
 
 
 @st.composite
+def rate_decl(draw, lab, t):
+    """Declaration of a parameter the handoff model uses as a rate (true value ``t``)."""
+    kind = draw(st.sampled_from(["free", "free", "bounded", "non_negative", "fixed"]))
+    v = t * draw(st.floats(0.8, 1.25))
+    p = {"label": lab, "value": v, "min": -INF, "max": INF, "nn": kind == "non_negative", "vary": kind != "fixed", "expr": None}
+    if kind == "bounded":
+        p["min"], p["max"] = v * draw(st.sampled_from([0.5, 0.9, 1.0])), v * draw(st.sampled_from([1.0, 1.1, 3.0]))
+        if p["min"] == p["max"]:
+            p["max"] = v * 2
+    if kind == "non_negative":
+        p["min"] = draw(st.sampled_from([-INF, 0.0, v * 0.5]))
+    return p
+
+
+@st.composite
 def handoff_cases(draw):
     pset = draw(gp.parameter_sets(min_size=1, max_size=5))
     construct = pset["construct"]
@@ -433,16 +652,7 @@ def handoff_cases(draw):
     l1, l2 = draw(st.permutations(pool))[:2]
     truth = {l1: 0.5 * draw(st.floats(0.9, 1.1)), l2: 1.7 * draw(st.floats(0.9, 1.1))}
     for lab in (l1, l2):
-        kind = draw(st.sampled_from(["free", "free", "bounded", "non_negative", "fixed"]))
-        t = truth[lab]
-        v = t * draw(st.floats(0.8, 1.25))
-        p = {"label": lab, "value": v, "min": -INF, "max": INF, "nn": kind == "non_negative", "vary": kind != "fixed", "expr": None}
-        if kind == "bounded":
-            p["min"], p["max"] = v * draw(st.sampled_from([0.5, 0.9, 1.0])), v * draw(st.sampled_from([1.0, 1.1, 3.0]))
-            if p["min"] == p["max"]:
-                p["max"] = v * 2
-        if kind == "non_negative":
-            p["min"] = draw(st.sampled_from([-INF, 0.0, v * 0.5]))
+        p = draw(rate_decl(lab, truth[lab]))
         pset["params"].insert(draw(st.integers(0, len(pset["params"]))), p)
     method = draw(st.sampled_from(list(METHODS)))
     if not any(gp.is_free(p) for p in pset["params"]):
@@ -456,8 +666,71 @@ def handoff_cases(draw):
     return {
         "sub": "handoff", "set": pset, "rates": [l1, l2], "truth": truth, "shapes": [draw(st.sampled_from(["exp", "cos", "rat"])) for _ in range(2)],
         "n_model": 30, "n_global": 2, "noise": 0.01, "seed": draw(st.integers(0, 2**32 - 1)), "method": method,
-        "max_nfev": nfev * (nfree + 1) if method == "Levenberg-Marquardt" else nfev, "check_jacobian": False,
+        "max_nfev": nfev * (nfree + 1) if method == "Levenberg-Marquardt" else nfev, "check_jacobian": False, "nfev": nfev,
     }
+
+
+def _strip_all(p):
+    """As ``_strip_bounds`` but also for a currently fixed parameter (it may be freed later in a history)."""
+    if p.get("expr") is None:
+        p["max"] = INF
+        p["min"] = 0.0 if (p.get("nn") and p["min"] != -INF) else -INF
+
+
+@st.composite
+def history_cases(draw, with_fits):
+    """A parameter set (with_fits: plus the small model of ``handoff_cases`` using two of its parameters) and 3..8 steps:
+    get (export of the vector, exclude_non_vary True / False), set (import of a moved vector), fit, copy, and in-place edits
+    of one parameter: ``vary`` toggled, redeclared as a plain parameter of any kind, or given an expression."""
+    if with_fits:
+        case = draw(handoff_cases())
+        case["sub"] = "refits"
+    else:
+        case = {"sub": "edits", "set": draw(gp.parameter_sets())}
+    lm = case.get("method") == "Levenberg-Marquardt"
+    rates = case.get("rates", [])
+    cur = {}
+    for p in case["set"]["params"]:
+        if lm:
+            _strip_all(p)
+        cur[p["label"]] = p
+    labs = list(cur)
+    ops = ["get", "get", "edit", "edit", "edit", "vary", "vary", "set", "copy"] + (["fit", "fit", "fit"] if with_fits else ["get"])
+    steps = []
+    for _ in range(draw(st.integers(3, 8 if not with_fits else 6))):
+        op = draw(st.sampled_from(ops))
+        if op == "get":
+            steps.append({"op": "get", "exclude": draw(st.sampled_from([True, True, True, False]))})
+        elif op == "set":
+            steps.append({"op": "set", "dir": draw(st.sampled_from([1, -1]))})
+        elif op in ("fit", "copy"):
+            steps.append({"op": op})
+        else:
+            lab = draw(st.sampled_from(labs))
+            plain = cur[lab].get("expr") is None
+            if op == "vary" and plain:
+                v = not cur[lab].get("vary", True) if draw(st.integers(0, 4)) else bool(cur[lab].get("vary", True))
+                cur[lab] = dict(cur[lab], vary=v)
+                steps.append({"op": "vary", "label": lab, "vary": v})
+                continue
+            referenced = {r for q in cur.values() if q.get("expr") is not None for r in ex.refs(q["expr"])}
+            others = [l for l in labs if l != lab and cur[l].get("expr") is None]
+            if lab in rates:
+                decl = draw(rate_decl(lab, case["truth"][lab]))
+            elif lab not in referenced and others and draw(st.integers(0, 2)) == 0:
+                decl = {"label": lab, "expr": draw(gp.trees(others, max_leaves=3))}
+            else:
+                decl = draw(gp.plain_decl(lab, draw(st.sampled_from(gp.KINDS[:5]))))
+            if lm and decl.get("expr") is None:
+                _strip_all(decl)
+            cur[lab] = dict(cur[lab], expr=decl["expr"]) if decl.get("expr") is not None else decl
+            steps.append({"op": "edit", "label": lab, "decl": decl})
+    if draw(st.booleans()):
+        # the shape the property is about: look at the object, edit it, look again
+        observe = {"op": "fit"} if with_fits else {"op": "get", "exclude": True}
+        steps = [dict(observe)] + steps + [dict(observe)]
+    case["steps"] = steps
+    return case
 
 
 EXPR_FAMILY = [
@@ -659,6 +932,23 @@ def selfcheck():
     # box test
     assert in_box(0.5, {"min": 0.5, "max": 1.0}) and not in_box(-0.693, {"min": 0.05, "nn": True}) and in_box(0.0, {"nn": True}) and not in_box(-1e-300, {"nn": True})
     assert not in_box(1.1, {"min": 0.0, "max": 1.0}) and in_box(1.0 + 1e-12, {"max": 1.0})
+    # histories: the oracle's account of edits and of a moved vector, by hand
+    assert move_inside(1.0, 0.0, 1.0, 0.5) == 0.5 and move_inside(1.0, 0.0, 4.0, 0.5) == 1.5 and move_inside(1.0, 0.0, 1.5, 0.5) == 1.25
+    assert move_inside(0.0, 0.0, 1.0, -0.3) == 0.3 and move_inside(2.0, -INF, INF, -0.5) == 1.5
+    ps = {"construct": "list", "params": [
+        {"label": "a", "value": 2.0, "min": -INF, "max": INF, "nn": False, "vary": True, "expr": None},
+        {"label": "b", "value": 1.0, "min": 0.5, "max": INF, "nn": True, "vary": True, "expr": None},
+        {"label": "c", "value": None, "min": -INF, "max": INF, "nn": False, "vary": True, "expr": ["+", ["ref", "a"], ["c", 1.0]]}]}
+    assert oracle_view(ps)[2] == ["a", "b"]
+    e1 = model_after_edit(ps, {"op": "vary", "label": "b", "vary": False})
+    assert oracle_view(e1)[2] == ["a"] and oracle_view(ps)[2] == ["a", "b"]
+    e2 = model_after_edit(e1, {"op": "edit", "label": "a", "decl": {"label": "a", "expr": ["*", ["ref", "b"], ["c", 3.0]]}})
+    assert oracle_view(e2)[2] == [] and set(gp.exprs_of(e2)) == {"a", "c"}
+    e3 = model_after_edit(e2, {"op": "edit", "label": "c", "decl": {"label": "c", "value": 4.0, "min": 0.0, "max": 9.0, "nn": False, "vary": True, "expr": None}})
+    assert oracle_view(e3)[2] == ["c"] and gp.declaration_order(e3) == ["a", "b", "c"]
+    labels, xs, moved = model_after_set(ps, {"op": "set", "dir": 1})
+    assert labels == ["a", "b"] and xs[0] == 2.0 + 0.37 * 3.0 and abs(xs[1] - 0.5 * math.log(0.5)) < 1e-15
+    assert abs(gp.by_label(moved)["b"]["value"] - math.sqrt(0.5)) < 1e-15 and gp.by_label(moved)["a"]["value"] == xs[0]
 
 
 PROPERTY = Property(
@@ -669,8 +959,11 @@ PROPERTY = Property(
         "record constructors; kinds free, bounded, one-sided, non-negative (min in {-inf} U [0, value)), fixed, expression "
         "(trees over the non-expression parameters); values on / 1e-9 next to / inside bounds, exactly 1 for non-negative, "
         "magnitudes 1e-12..1e12) and optimize() runs over them with TrustRegionReflection, Dogbox and (unbounded sets) "
-        "Levenberg-Marquardt on verif-table models (truth inside / on / outside the box, max_nfev 1..30). Non-trivial: the set "
-        "has >= 3 parameter kinds including non-negative and (one-sided) bounded, or a bound is active at the solution; "
+        "Levenberg-Marquardt on verif-table models (truth inside / on / outside the box, max_nfev 1..30); histories of 3..10 "
+        "steps on one Parameters object (export, import of a moved vector, fit, copy, in-place edit of one parameter: vary "
+        "toggled / redeclared / given an expression). Non-trivial: the set "
+        "has >= 3 parameter kinds including non-negative and (one-sided) bounded, or a bound is active at the solution; for a "
+        "history: the set of free parameters differs between two observations (export / import / fit) of the same object; "
         "distinct = distinct case digest."
     ),
     subs=[
@@ -679,6 +972,11 @@ PROPERTY = Property(
             doc="arbitrary parameter sets, two of whose parameters are used by the model; capture stub for least_squares"),
         Sub("fits", prop=prop_fit, strategy=fit_cases, budget={"quick": 320, "thorough": 15000},
             doc="all parameters are column rates; history / result / ordering of jacobian, covariance, standard errors"),
+        Sub("edits", prop=prop_history, strategy=lambda: history_cases(False), budget={"quick": 1600, "thorough": 120000},
+            doc="histories on one Parameters object: export / import of the vector interleaved with in-place edits (vary toggled, "
+                "parameter redeclared, expression given) and copies; after every edit the current declaration decides what is free"),
+        Sub("refits", prop=prop_history, strategy=lambda: history_cases(True), budget={"quick": 160, "thorough": 12000},
+            doc="the same histories with optimize() runs over the same Parameters object between the edits (handoff model)"),
         Sub("failed_fit", prop=prop_failed_fit, strategy=failed_fit_cases, budget={"quick": 240, "thorough": 10000},
             doc="an injected model fault aborts the optimisation (raise_exception=False): the Result restored from the history still "
                 "respects bounds, fixed values and non-negativity, and holds actual (not optimiser-space) values"),
@@ -689,6 +987,11 @@ PROPERTY = Property(
         "jacobian columns cosine > 0.99 against a central difference (h=1e-6) of the captured objective taken by label, only when the "
         "derivative columns are pairwise distinguishable (|cos| < 0.9); cov @ G^T G within 0.05 of identity when 8e-7|y| smax/smin^2 < 0.01; a non-negative parameter recorded as +0.0 (underflow of exp) is accepted and tagged",
         "expressions in C11 reference non-expression parameters only (evaluation order is C12)",
+        "histories: a Parameter is edited through its public attributes (expression, value, minimum, maximum, non_negative, vary; "
+        "an expression is only given, never combined with vary=True; a cleared expression is followed by a full redeclaration); "
+        "expressions reference plain parameters only; an imported vector lies strictly inside the box; steps that would leave the "
+        "real domain of an expression are skipped and tagged; optimize() works on a copy and leaves the Parameters object it is "
+        "given as it was (Result.initial_parameters) - clause fit_input_changed",
         "non-negative standard error: either branch of Optimizer.calculate_covariance_matrix_and_standard_errors is accepted",
     ],
     selfcheck=selfcheck,
